@@ -78,8 +78,6 @@ Fixpoint dedupe_consecutive (prev : option str) (l : list str) : list str :=
 Definition cleanup_errors (msg : str) : list str :=
   dedupe_consecutive None (splitlines (py_strip (sub_paths (length msg) msg))).
 
-Fixpoint contains (sub s : str) : bool :=
-  starts_with sub s || match s with [] => false | _ :: r => contains sub r end.
 Definition s_java_colon : str := [46;106;97;118;97;58].          (* .java: *)
 Definition s_tab_at : str := [9;97;116].                          (* TAB a t *)
 Definition pre_runtime : str := [106;97;118;97;46;108;97;110;103;46;82;117;110;116;105;109;101;69;120;99;101;112;116;105;111;110;58;32].
